@@ -169,6 +169,16 @@ func (e *env) close() {
 	}
 }
 
+// quiesce waits until the pool is idle (events added by a sink body during
+// the pre-flight are processed asynchronously).
+func (e *env) quiesce() {
+	if !e.proc.Stopped() {
+		nudgeBegin(e.proc.ThreadPool())
+		e.proc.ThreadPool().WaitAll()
+		nudgeEnd()
+	}
+}
+
 type outcome struct {
 	val      interface{}
 	err      error
@@ -235,20 +245,33 @@ func protocolError(err error) bool {
 	return t == util.ErrIsIterator || t == util.ErrEndOfIteration || t == util.ErrContinueIteration || t == util.ErrReturn
 }
 
+// errType gives a coarse, stable class of an error (for finding keys): the
+// interpreter's own error type if it is one, "user-raised" for types made up
+// by raise(), else the Go type.
 func errType(err error) string {
+	var t error
 	switch x := err.(type) {
 	case *util.RuntimeError:
-		if x.Type != nil {
-			return x.Type.Error()
-		}
-		return "<nil type>"
+		t = x.Type
 	case *util.RuntimeErrorWithDetail:
-		if x.RuntimeError != nil && x.Type != nil {
-			return x.Type.Error()
+		if x.RuntimeError == nil {
+			return "<nil runtime error>"
 		}
+		t = x.Type
+	default:
+		return fmt.Sprintf("%T", err)
+	}
+	for _, k := range []error{util.ErrRuntimeError, util.ErrUnknownConstruct, util.ErrInvalidConstruct, util.ErrInvalidState,
+		util.ErrVarAccess, util.ErrNotANumber, util.ErrNotABoolean, util.ErrNotAList, util.ErrNotAMap, util.ErrNotAListOrMap,
+		util.ErrSink, util.ErrReturn, util.ErrIsIterator, util.ErrEndOfIteration, util.ErrContinueIteration} {
+		if t == k {
+			return k.Error()
+		}
+	}
+	if t == nil {
 		return "<nil type>"
 	}
-	return fmt.Sprintf("%T", err)
+	return "user-raised"
 }
 
 // fireResult is what one event did.
@@ -286,6 +309,7 @@ func (e *env) fire(ev *engine.Event) fireResult {
 	if fr.panicked {
 		return fr
 	}
+	e.quiesce()
 	fr.where = "addevent"
 	if e.proc.Stopped() {
 		e.proc.Start()
